@@ -10,6 +10,8 @@ use std::time::{Duration, Instant};
 use serde_json::{json, Value};
 
 use raindb::fs::{FileLock, FileSystem, RandomAccessFile, ReadonlyRandomAccessFile, TmpFileSystem};
+#[allow(unused_imports)]
+use raindb::db::verif_hooks::VerifProbe;
 use raindb::{DbOptions, ReadOptions, WriteOptions, DB};
 
 use crate::crashx::pool;
@@ -119,7 +121,9 @@ impl P17 {
 fn opts(fs: &Arc<SwitchFs>) -> DbOptions {
     DbOptions {
         db_path: fs.inner.get_root_path().join("db").to_str().unwrap().to_string(),
-        max_memtable_size: 4 << 20,
+        // small enough that the third small put rotates the memtable: a close can then find a
+        // background flush in progress
+        max_memtable_size: 300,
         max_file_size: 2 << 20,
         max_block_size: 4096,
         filesystem_provider: Arc::clone(fs) as Arc<dyn FileSystem>,
@@ -156,6 +160,10 @@ fn body(p: &P17) -> Option<(String, String)> {
     let alive = Arc::new(AtomicI64::new(0));
     let max_alive = Arc::new(AtomicI64::new(0));
     let log: Arc<Mutex<Vec<Ev>>> = Arc::new(Mutex::new(vec![]));
+    let acked: Arc<Mutex<Vec<Vec<u8>>>> = Arc::new(Mutex::new(vec![]));
+    // probes of every instance ever opened: (actor, probe)
+    let probes: Arc<Mutex<Vec<(usize, raindb::db::verif_hooks::VerifProbe)>>> = Arc::new(Mutex::new(vec![]));
+    let overlap: Arc<Mutex<Option<String>>> = Arc::new(Mutex::new(None));
     let get = |db: &DB, k: &[u8]| db.get(ReadOptions::default(), k).ok();
     let mut owner: Option<DB> = None;
     match p.initial {
@@ -183,6 +191,9 @@ fn body(p: &P17) -> Option<(String, String)> {
         let alive = Arc::clone(&alive);
         let max_alive = Arc::clone(&max_alive);
         let log = Arc::clone(&log);
+        let acked = Arc::clone(&acked);
+        let probes = Arc::clone(&probes);
+        let overlap = Arc::clone(&overlap);
         let a = *a;
         handles.push(shuttle::thread::spawn(move || -> Option<DB> {
             let push = |what: &'static str, invoke: u64, ok: bool, err: String| {
@@ -202,14 +213,39 @@ fn body(p: &P17) -> Option<(String, String)> {
                             let n = alive.fetch_add(1, Ordering::SeqCst) + 1;
                             max_alive.fetch_max(n, Ordering::SeqCst);
                             push("open", i, true, String::new());
+                            // no other instance may still have background work in flight
+                            let others: Vec<usize> = {
+                                let ps = std::mem::take(&mut *probes.lock().unwrap());
+                                let busy = ps.iter().filter(|(_, p)| p.background_work_pending()).map(|(a, _)| *a).collect();
+                                let mut g = probes.lock().unwrap();
+                                let newer = std::mem::take(&mut *g);
+                                *g = ps;
+                                g.extend(newer);
+                                busy
+                            };
+                            if let Some(o) = others.first() {
+                                let mut g = overlap.lock().unwrap();
+                                if g.is_none() {
+                                    *g = Some(format!("actor {}'s open succeeded while the instance opened by actor {} still had background work in flight", ai, o));
+                                }
+                            }
+                            probes.lock().unwrap().push((ai, db.verif_probe()));
                             if a == Actor::OpenHold {
                                 return Some(db);
                             }
-                            let i = tick();
-                            let r = db.put(WriteOptions::default(), format!("a{}", ai).into_bytes(), b"x".to_vec());
-                            push("put", i, r.is_ok(), r.err().map(|e| e.to_string()).unwrap_or_default());
+                            for j in 0..3 {
+                                let i = tick();
+                                let key = format!("a{}-{}", ai, j).into_bytes();
+                                let r = db.put(WriteOptions::default(), key.clone(), b"x".to_vec());
+                                if r.is_ok() {
+                                    acked.lock().unwrap().push(key);
+                                }
+                                push("put", i, r.is_ok(), r.err().map(|e| e.to_string()).unwrap_or_default());
+                            }
                             alive.fetch_sub(1, Ordering::SeqCst);
+                            let i = tick();
                             drop(db);
+                            push("close", i, true, String::new());
                             None
                         }
                         Err(e) => {
@@ -236,7 +272,10 @@ fn body(p: &P17) -> Option<(String, String)> {
         e.iter().map(|e| format!("A{} {} [{}..{}] -> {}", e.actor, e.what, e.invoke, e.ret, if e.ok { "Ok".to_string() } else { format!("Err({})", e.err.chars().take(40).collect::<String>()) })).collect::<Vec<_>>().join(" | ")
     };
     let mut verdict: Option<(String, String)> = None;
-    if max_alive.load(Ordering::SeqCst) > 1 {
+    if let Some(m) = overlap.lock().unwrap().take() {
+        verdict = Some(("C17.open_during_close".into(), format!("{}: {}", m, hist())));
+    }
+    if verdict.is_none() && max_alive.load(Ordering::SeqCst) > 1 {
         verdict = Some(("C17.two_owners".into(), format!("two successfully opened handles were alive at the same time: {}", hist())));
     }
     if verdict.is_none() && p.initial == Initial::Open {
@@ -266,6 +305,35 @@ fn body(p: &P17) -> Option<(String, String)> {
         alive.fetch_sub(1, Ordering::SeqCst);
         drop(db);
     }
+    // every put acknowledged by any owner is there after everybody closed (unless a destroy ran)
+    let destroyed = events.iter().any(|e| e.what == "destroy" && e.ok) || p.actors.contains(&Actor::Destroy);
+    if verdict.is_none() && !destroyed && owner.is_none() {
+        let keys = acked.lock().unwrap().clone();
+        if !keys.is_empty() {
+            match DB::open(opts(&fs)) {
+                Ok(db) => {
+                    // two instances active on one path leave duplicate / overlapping file records
+                    let layout = db.verif_layout();
+                    if let Err(v) = crate::world::check_layout_wellformed(&db, &layout, true) {
+                        verdict = Some(("C17.shared_state_damaged".into(), format!("after everybody closed the database's table layout is ill-formed ({}: {}) — two instances were active on the path at once ({})", v.clause, v.detail, hist())));
+                    }
+                    for k in keys.iter() {
+                        if verdict.is_some() {
+                            break;
+                        }
+                        if get(&db, k).is_none() {
+                            verdict = Some((
+                                "C17.acknowledged_write_lost".into(),
+                                format!("put({}) was acknowledged to an owner but is gone after everybody closed ({})", String::from_utf8_lossy(k), hist()),
+                            ));
+                            break;
+                        }
+                    }
+                }
+                Err(e) => verdict = Some(("C17.acknowledged_write_lost".into(), format!("the database cannot be opened after everybody closed: {} ({})", e, hist()))),
+            }
+        }
+    }
     if let Some(db) = owner.take() {
         drop(db);
         if verdict.is_none() {
@@ -293,6 +361,8 @@ pub fn programs() -> Vec<P17> {
         mk("closed:hold||hold||hold", Initial::Closed, vec![OpenHold, OpenHold, OpenHold]),
         mk("absent:hold||hold", Initial::Absent, vec![OpenHold, OpenHold]),
         mk("closed:hold||openclose", Initial::Closed, vec![OpenHold, OpenPutClose]),
+        mk("closed:openclose||openclose", Initial::Closed, vec![OpenPutClose, OpenPutClose]),
+        mk("absent:openclose||openclose||hold", Initial::Absent, vec![OpenPutClose, OpenPutClose, OpenHold]),
         mk("closed:destroy||hold", Initial::Closed, vec![Destroy, OpenHold]),
         mk("closed:destroy||hold||hold", Initial::Closed, vec![Destroy, OpenHold, OpenHold]),
         mk("closed:destroy||openclose||hold", Initial::Closed, vec![Destroy, OpenPutClose, OpenHold]),
